@@ -17,7 +17,7 @@ func init() { register("C11", checkC11) }
 var footerRE = regexp.MustCompile(`(?m)^at (.+):(\d+)$`)
 
 func checkC11(c *vkit.Ctx) {
-	c.P.Rule = "case = real test program (root package and a package two levels deep; helpers in the same test file, in a non-test file, in a sub-package; closures; goroutines; subtests 1-3 deep with spaces, `#`, unicode, `%`, `/` in their names) x Dir{unset, relative, nested relative, absolute} x Filename{unset,set} x Ext{unset,.txt} x the five entry points, launched (a) with cwd = package directory, (b) from three foreign working directories, (c) built with -trimpath and run from the package directory; oracle: the set of files created anywhere under the module tree, the absolute directory and the working directory == the set the C11 location function gives for the calls in the event log; then every value is changed under Update(false) and the `at <rel>:<line>` footer of each failure report must resolve to the same file; non-trivial = call through >=1 helper frame, or a non-default option, or the deep package; distinct by hash(scenario, launch mode)"
+	c.P.Rule = "case = real test program (root package and a package two levels deep; helpers in the same test file, in a non-test file, in a sub-package; the call statement below 20-300 recursive frames of a non-test file; closures; goroutines; subtests 1-3 deep with spaces, `#`, unicode, `%`, `/` in their names) x Dir{unset, relative, nested relative, absolute} x Filename{unset,set} x Ext{unset,.txt} x the five entry points, launched (a) with cwd = package directory, (b) from three foreign working directories, (c) built with -trimpath and run from the package directory; oracle: the set of files created anywhere under the module tree, the absolute directory and the working directory == the set the C11 location function gives for the calls in the event log; then every value is changed under Update(false) and the `at <rel>:<line>` footer of each failure report must resolve to the same file; non-trivial = call through >=1 helper frame, or a non-default option, or the deep package; distinct by hash(scenario, launch mode)"
 	c.P.Assumptions = []string{"-trimpath combined with a foreign working directory is the README's documented limitation and is not generated", "subtest closures defined in non-test files and helpers living in another _test.go file are outside the statement's well-defined cases and are not generated"}
 	root := vkit.MkScratch("prog")
 	defer os.RemoveAll(root)
